@@ -218,6 +218,88 @@ def h_push_forward(h):
     h.close(smp, ref_s, "samples-are-inverse-transformed-base-samples")
 
 
+def h_transformed_cdf(h):
+    """TransformedModel.cdf integrates its own pdf over the lower-left orthant; empirical_cdf counts sample rows"""
+    vc = shim.virocon()
+    model, tr = _ew_model(h, h.cfg["getter"])
+    t = vc.TransformedModel(model, tr["transform"], tr["inverse"], tr["jacobian"], precision_factor=0.2, random_state=1)
+    pt = [h.real("hs", 0.5, 6.0), h.real("tz", 3.0, 12.0)]
+    probe = stubs.NquadProbe(h, lo=0.5, hi=9.0)
+    with stubs.patch_attr(shim.mod("jointmodels"), "integrate", stubs.IntegrateProxy(probe)):
+        got = t.cdf(h.arr(pt))
+    h.reach()
+    h.check(len(probe.calls) == 1 and len(probe.calls[0]["ranges"]) == 2, "one-2-D-integral")
+    c = probe.calls[0]
+    ref = t.pdf(h.arr([[c["probe"][0], c["probe"][1]]]))
+    h.close(c["integrand"], ref[0], "integrand-is-the-transformed-pdf-in-model-order")
+    for j in range(2):
+        h.close(c["ranges"][j][0], 0.0, "lower-limit-zero")
+        h.close(c["ranges"][j][1], pt[j], "upper-limit-is-own-coordinate")
+    h.close(got[0], c["result"], "cdf-is-the-integral")
+    # empirical cdf: fraction of sample rows that are <= the point in every coordinate
+    srows = [[h.real(f"s{r}_{k}", 0.1, 9.0) for k in range(2)] for r in range(3)]
+    for r in range(3):
+        for k in range(2):   # away from ties so that a float replay takes the same branch
+            h.assume(sym.Or(srows[r][k] - pt[k] >= 1e-3, srows[r][k] - pt[k] <= -1e-3) if h.sym else abs(srows[r][k] - pt[k]) >= 1e-4)
+    e = t.empirical_cdf(h.arr(pt), sample=h.arr(srows))
+    cnt = 0
+    for r in range(3):
+        inside = sym.And(srows[r][0] <= pt[0], srows[r][1] <= pt[1]) if h.sym else (srows[r][0] <= pt[0] and srows[r][1] <= pt[1])
+        cnt = cnt + (sym.If(inside, 1, 0) if h.sym else (1 if inside else 0))
+    ev = e[0] if np.ndim(e) else e
+    h.close(ev, cnt / 3, "empirical-cdf-is-the-fraction-of-sample-rows-below-the-point")
+
+
+def h_conditional_quantiles(h):
+    """Monte-Carlo conditional cdf / icdf: sample size rule, own seed, quantile / fraction of the conditional sample"""
+    nd = 2
+    m = _RecModel(nd, 0.5)
+    log = []
+    vals = [h.real(f"c{k}", 0.2, 9.0) for k in range(3)]
+    h.distinct(vals, 0.01)
+
+    def fake_sample(n, dim, given, *, random_state=None, **kw):
+        log.append({"n": n, "dim": dim, "given": given, "rs": random_state})
+        return h.arr(vals)
+
+    m.conditional_sample = fake_sample
+    p = [0.3, 0.999]
+    pf = h.cfg["pf"]
+    g = [h.real("g0", 0.5, 5.0), h.real("g1", 0.5, 5.0)]
+    given = h.arr([[g[0]], [g[1]]])
+    x = m.conditional_icdf(np.array(p), 1, given, precision_factor=pf, random_state=11)
+    h.reach()
+    h.check(len(log) == 2, "one-conditional-sample-per-point")
+    for k in range(2):
+        ps = p[k] if p[k] < 0.5 else 1 - p[k]
+        want_n = int(min(max((1 / ps) * 100 * pf, 100_000), 10_000_000))
+        h.check(log[k]["n"] == want_n, "sample-size-rule", f"{log[k]['n']} vs {want_n}")
+        h.check(log[k]["dim"] == 1 and log[k]["rs"] == 11, "own-dimension-and-seed")
+        h.close(np.ravel(npx.deep_strip(log[k]["given"])), [g[k]], "own-conditioning-value")
+        if h.sym:
+            ref = npx.quantile(h.arr(vals), p[k])
+        else:
+            ref = np.quantile(vals, p[k])
+        h.close(x[k], ref, "quantile-of-the-conditional-sample")
+    del log[:]
+    xq = [h.real("xq0", 0.2, 9.0), h.real("xq1", 0.2, 9.0)]
+    for q in xq:
+        for v in vals:
+            h.assume(sym.Or(q - v >= 1e-3, q - v <= -1e-3) if h.sym else abs(q - v) >= 1e-4)
+    if h.sym:
+        xarr = np.array(xq, dtype=object).view(sym.SymArray)
+    else:
+        xarr = np.array(xq)
+    cdf = m.conditional_cdf(xarr, 1, given, random_state=11)
+    for k in range(2):
+        cnt = 0
+        for v in vals:
+            c = (v <= xq[k])
+            cnt = cnt + (sym.If(c, 1, 0) if h.sym else (1 if c else 0))
+        h.check(log[k]["n"] == 100_000 and log[k]["rs"] == 11, "cdf-sample-size-and-seed")
+        h.close(cdf[k] * 100_000, cnt, "conditional-cdf-counts-the-sample-below-x")
+
+
 class _RecModel:
     """a MultivariateModel whose joint pdf records the points it is asked for"""
 
@@ -384,6 +466,10 @@ def obligations(tier):
     for g in ("get_Windmeier_EW_Hs_S", "get_Nonzero_EW_Hs_S"):
         yield ("jacobian", h_jacobian, {"getter": g}, {"timeout_ms": 15000})
         yield ("push_forward", h_push_forward, {"getter": g}, {})
+    for g in ("get_Windmeier_EW_Hs_S", "get_Nonzero_EW_Hs_S"):
+        yield ("transformed_cdf", h_transformed_cdf, {"getter": g}, {"max_paths": 2000})
+    for pf in (1.0, 0.1):
+        yield ("conditional_quantiles", h_conditional_quantiles, {"pf": pf}, {"max_paths": 5000})
     for dim in range(3):
         yield ("conditional_sample", h_conditional_sample, {"dim": dim}, {"max_paths": 2000})
     for seed in ("symbolic", 0, 1, 42):
